@@ -169,4 +169,129 @@ theorem ErrOnly.handleTimer_other (t : Timer) (ht : ∀ tok, t ≠ .probe tok) :
     exact ErrOnly.chooseAndSend E hK _ _
 
 end
+/-! ### everything `handle_data` does once a datagram is parsed -/
+
+section
+variable (E : Env) {K : ErrKind → Prop}
+
+theorem ErrOnly.membersApply (u : Member) : ErrOnly K (Foca.membersApply u) := by
+  constructor
+  intro c e c' h
+  unfold Foca.membersApply at h
+  cases ha : Foca.applyExisting c.s.ms u (fun _ => true) with
+  | some r => rw [ha] at h; simp at h
+  | none =>
+    rw [ha] at h
+    simp only at h
+    have hd : ∀ e1 c1, Foca.drawIdx .choose (c.s.ms.length + 1) c ≠ .err e1 c1 := by
+      intro e1 c1 hh
+      unfold Foca.drawIdx at hh
+      cases hdr : c.orc.draws with
+      | nil => rw [hdr] at hh; simp at hh
+      | cons d rest =>
+        rw [hdr] at hh
+        cases d with
+        | perm p => simp at hh
+        | idx k => simp only at hh; split at hh <;> simp at hh
+    cases hr : Foca.drawIdx .choose (c.s.ms.length + 1) c with
+    | stuck x => rw [hr] at h; simp at h
+    | err e1 c1 => exact absurd hr (hd e1 c1)
+    | ok j c1 => rw [hr] at h; simp at h
+
+theorem ErrOnly.applyUpdate (u : Member) (b : Bool) : ErrOnly K (Foca.applyUpdate E u b) := by
+  unfold Foca.applyUpdate
+  erronly
+  · exact ErrOnly.membersApply u
+  · exact ErrOnly.handleApplySummary E _ _ _
+
+/-- `attempt` never fails; what it hands on is an error of the computation it wrapped -/
+theorem ErrOnly.attempt_bind {β} {m : M Unit} {f : Option ErrKind → M β} (hm : ErrOnly K m)
+    (hf : ∀ r, (∀ e, r = some e → K e) → ErrOnly K (f r)) : ErrOnly K (Foca.attempt m >>= f) := by
+  constructor
+  intro c e c' h
+  simp only [bind_run] at h
+  unfold Foca.attempt at h
+  cases hmc : m c with
+  | stuck x => rw [hmc] at h; simp at h
+  | ok u c2 =>
+    rw [hmc] at h
+    exact (hf none (fun _ he => by cases he)).run c2 e c' h
+  | err e2 c2 =>
+    rw [hmc] at h
+    exact (hf (some e2) (fun e3 he => by cases he; exact hm.run c e2 c2 hmc)).run c2 e c' h
+
+end
+
+section
+variable (E : Env) {K : ErrKind → Prop} (hEnc : K .encode) (hSame : K .sameIdentity) (hInd : K .indirectForOurselves)
+include hEnc hSame
+
+theorem ErrOnly.gossip : ErrOnly K (Foca.gossip E) := by
+  unfold Foca.gossip
+  erronly
+  exact ErrOnly.chooseAndSend E hEnc _ _
+
+theorem ErrOnly.changeIdentity (i : Id) (p : Policy) : ErrOnly K (Foca.changeIdentity E i p) := by
+  unfold Foca.changeIdentity Foca.reset Foca.addUpdate
+  erronly
+  all_goals first
+    | exact ErrOnly.throwE _ hSame
+    | exact ErrOnly.gossip E hEnc hSame
+
+theorem ErrOnly.attemptRejoin : ErrOnly K (Foca.attemptRejoin E) := by
+  unfold Foca.attemptRejoin
+  erronly
+  exact ErrOnly.changeIdentity E hEnc hSame _ _
+
+theorem ErrOnly.handleSelfUpdate (inc : Nat) (st : St) : ErrOnly K (Foca.handleSelfUpdate E inc st) := by
+  unfold Foca.handleSelfUpdate Foca.becomeUndead
+  erronly
+  all_goals first
+    | exact ErrOnly.attemptRejoin E hEnc hSame
+    | exact ErrOnly.gossip E hEnc hSame
+
+theorem ErrOnly.applyOne (u : Member) (b : Bool) : ErrOnly K (Foca.applyOne E u b) := by
+  unfold Foca.applyOne
+  erronly
+  all_goals first
+    | exact ErrOnly.handleSelfUpdate E hEnc hSame _ _
+    | exact ErrOnly.applyUpdate E _ _
+
+theorem ErrOnly.applyLoop (b : Bool) (us : List Member) : ErrOnly K (Foca.applyLoop E b us) := by
+  induction us with
+  | nil => unfold Foca.applyLoop; exact ErrOnly.pure _
+  | cons u rest ih => unfold Foca.applyLoop; exact ErrOnly.bind (ErrOnly.applyOne E hEnc hSame u b) (fun _ => ih)
+
+theorem ErrOnly.applyMany (us : List Member) (b : Bool) : ErrOnly K (Foca.applyMany E us b) := by
+  unfold Foca.applyMany
+  erronly
+  · exact ErrOnly.applyLoop E hEnc hSame _ _
+  · exact ErrOnly.adjustConnectionState E
+
+theorem ErrOnly.inactiveSender (h : Header) : ErrOnly K (Foca.inactiveSender E h) := by
+  unfold Foca.inactiveSender
+  erronly
+  all_goals first
+    | exact ErrOnly.handleSelfUpdate E hEnc hSame _ _
+    | exact ErrOnly.sendMessage E hEnc _ _
+
+include hInd in
+theorem ErrOnly.reactToMessage (h : Header) : ErrOnly K (Foca.reactToMessage E h) := by
+  unfold Foca.reactToMessage
+  erronly
+  all_goals first
+    | exact ErrOnly.throwE _ hInd
+    | exact ErrOnly.sendMessage E hEnc _ _
+    | exact ErrOnly.handleSelfUpdate E hEnc hSame _ _
+
+include hInd in
+theorem ErrOnly.replyStage (h : Header) (cres : Option ErrKind) (hc : ∀ e, cres = some e → K e) :
+    ErrOnly K (Foca.replyStage E h cres) := by
+  unfold Foca.replyStage
+  erronly
+  all_goals first
+    | exact ErrOnly.throwE _ (hc _ rfl)
+    | exact ErrOnly.reactToMessage E hEnc hSame hInd _
+
+end
 end Foca
